@@ -42,6 +42,17 @@ def register(reg):
                      ("implies(s not in aliases, not result.startswith('__'))", 'F9', "not (prefix[0] == '_' and (s[0] == '_' or len(prefix) == 1 or prefix[1] == '_'))"),
                  ],
                  replay=_replay)
+    # nested imports (a module that is itself imported): the importing module's mangle is applied ON TOP of this one - to explicitly
+    # imported names and to dependencies alike - so a transitive dependency carries both prefixes and cannot clash with a direct import
+    reg.specfun('OUTER', [('f', 'any'), ('s', 'str')], 'str', doc='the enclosing mangle function applied to a name')
+    reg.contract('lark.load_grammar:_get_mangle.<locals>.mangle#nested', serves=S,
+                 params={'s': 'str', 'prefix': 'str', 'aliases': 'dict[str,str]', 'base_mangle': 'any'}, returns='str',
+                 requires=['len(s) >= 1', 'len(prefix) >= 1', 'base_mangle is not None'],
+                 ghost={'callv:base_mangle#0': dict(returns='str', assumes=['result == OUTER(fn, arg0)'])},
+                 ensures=['implies(s in aliases, result == OUTER(base_mangle, aliases[s]))',
+                          "implies(s not in aliases and s[0] != '_', result == OUTER(base_mangle, %s))" % PLAIN,
+                          "implies(s not in aliases and s[0] == '_', result == OUTER(base_mangle, %s))" % UNDER],
+                 replay=_replay)
     # injectivity on non-aliased names, for a fixed prefix (imported definitions never capture each other)
     reg.specfun('MANGLE', [('prefix', 'str'), ('s', 'str')], 'str', body="(%s) if s[0] != '_' else (%s)" % (PLAIN, UNDER))
     reg.lemma('mangle_injective', [('prefix', 'str'), ('s', 'str'), ('t', 'str')],
